@@ -205,7 +205,6 @@ def main(argv=None):
         print('KNOWN-FINDING: property=%s %s' % (a.prop, kf['what']))
     viol_records = []
     if violations:
-        exit_code = 1
         outdir = os.path.join(ROOT, 'replays', a.prop)
         seen = set()
         for cn, o in violations:
@@ -216,6 +215,11 @@ def main(argv=None):
             path, confirmed, out = replay_native(a.prop, cn, o['name'], o.get('witness'), a.repo, outdir,
                                                  dict(path_condition=o.get('pc'), goal=o.get('goal'), backend=o['backend'],
                                                       verifier_detail=o.get('detail')))
+            if not confirmed and o['backend'].startswith('z3-model'):
+                # a solver model that the native code does not reproduce: the model may assign impossible values to
+                # symbols that stand for callee results (contracts are weaker than bodies) -> undecided, not a violation
+                undecided.append((cn, o['name'] + ' :: solver counter-model not reproduced on the native code (see %s)' % path))
+                continue
             tail = '' if confirmed else ' no-failing-input-found'
             print('VIOLATION property=%s replay=%s%s' % (a.prop, path, tail))
             print('  obligation: %s :: %s  [%s]%s' % (cn, o['name'], o['backend'],
@@ -223,6 +227,8 @@ def main(argv=None):
             viol_records.append(dict(contract=cn, obligation=o['name'], replay=path, reproduced_natively=bool(confirmed)))
             if len(viol_records) >= 40:
                 break
+        if viol_records:
+            exit_code = 1
     if engine_errors and exit_code == 0:
         exit_code = 3
     if undecided and exit_code == 0:
